@@ -112,6 +112,18 @@ func runC19(r *mc.Run) {
 	partial := proto.Clone(qmsg)
 	partial.ProtoReflect().Clear(partial.ProtoReflect().Descriptor().Fields().ByName("td_quote_body"))
 	partialBytes, _ := proto.Marshal(partial)
+	// genuine quotes (signed by T's platform) whose TD carries a bit no TD may have: whatever the policy says —
+	// also when it says nothing — they do not satisfy it
+	badBits := func(off int, bit uint) []byte {
+		p2 := parts.Clone()
+		p2.Body[off+int(bit/8)] ^= 1 << (bit % 8)
+		p2.SignBody(world.NewKey("att"))
+		b, _ := p2.Bytes()
+		return b
+	}
+	xfamBad, tdAttrBad, xfamLow := badBits(128, 3), badBits(120, 1), badBits(128, 0)
+	xfamBadMsg, _ := safeToProto(xfamBad)
+	xfamBadPb, _ := proto.Marshal(xfamBadMsg)
 	inputs := []struct {
 		name  string
 		args  []string
@@ -129,6 +141,10 @@ func runC19(r *mc.Run) {
 		{"bin-as-proto", []string{"-in", filepath.Join(dir, "quote.bin"), "-inform", "proto"}, []int{1, 2}},
 		{"empty-file", []string{"-in", wf("empty.bin", nil)}, []int{1, 2}},
 		{"missing-file", []string{"-in", filepath.Join(dir, "no-such-quote.bin")}, []int{1}},
+		{"bin-genuine-xfam-forbidden-bit3", []string{"-in", wf("xfam3.bin", xfamBad)}, []int{4}},
+		{"bin-genuine-tdattributes-forbidden-bit1", []string{"-in", wf("tdattr1.bin", tdAttrBad)}, []int{4}},
+		{"bin-genuine-xfam-required-bit0-clear", []string{"-in", wf("xfam0.bin", xfamLow)}, []int{4}},
+		{"proto-genuine-xfam-forbidden-bit3", []string{"-in", wf("xfam3.pb", xfamBadPb), "-inform", "proto"}, []int{4}},
 	}
 	tPem, fPem := wf("T.pem", world.PEM(T.Root)), wf("F.pem", world.PEM(F.Root))
 	notPem := wf("notpem.txt", []byte("hello"))
@@ -408,6 +424,9 @@ func runC19(r *mc.Run) {
 				if flagMeaning[i] == 2 {
 					allowed[4] = true
 				}
+			}
+			for _, code := range inputs[in].codes {
+				allowed[code] = true
 			}
 		}
 		if cfgArg != "" {
